@@ -22,7 +22,10 @@ LEVEL_TEXT = (
     "coefficients (scaled and unscaled, with and without supplied start values, sequential and parallel) must equal the "
     "sensitivities of the analytic steady state to 2e-2 (they are finite differences of numerically found steady "
     "states) and be identical between execution modes; get_parameter_values() and get_initial_conditions() are compared "
-    "before and after every routine."
+    "before and after every routine. Monte-Carlo wrappers (mc.variable_elasticities / parameter_elasticities / "
+    "response_coefficients): sample tables with a parameter column, an initial-value column, both, or a parameter that "
+    "an initial assignment reads x default or supplied state x row labels in and out of order x 1-3 workers; every "
+    "row's block must equal the analytic coefficients at that row's parameters and state, under that row's label."
 )
 LEVEL_NOTE = "trusted: the analytic steady state of the power-law chain/branch; finite-difference tolerance constants as stated"
 RULE = (
@@ -92,7 +95,97 @@ def generate(tier):
             if mode == "parallel" and tier == "quick" and not (norm and start == "default"):
                 continue
             cases.append({"routine": "response_coefficients", "net": net, "n1": n1, "n2": n2, "pars": list(pars), "normalized": norm, "start": start, "mode": mode})
+    # Monte-Carlo wrappers: one block per row of the sample table, each at that row's parameters and start values
+    for rt, (n1, n2), norm, table, state in it.product(("mc.variable_elasticities", "mc.parameter_elasticities", "mc.response_coefficients"),
+                                                       rc_orders, (True, False), ("par", "init", "both", "ia"), (None, "supplied")):
+        if rt == "mc.parameter_elasticities" and state is None:
+            continue  # its signature requires the state
+        if rt == "mc.response_coefficients" and tier == "quick" and (n1, n2) != rc_orders[1]:
+            continue
+        for labels, workers in (("range", 1), ("shuffled", 2)) if tier == "quick" else it.product(MC_LABELS, (1, 2, 3)):
+            cases.append({"routine": rt, "n1": n1, "n2": n2, "normalized": norm, "table": table, "state": state, "labels": labels, "workers": workers, "mode": "parallel"})
     return cases
+
+
+MC_ROWS = {"k1": [1.0, 2.0, 0.5], "x": [0.5, 2.0, 1.5]}
+MC_LABELS = {"range": [0, 1, 2], "shuffled": [2, 0, 1]}
+
+
+def check_mc(case):
+    """Monte-Carlo wrappers: every row's block equals the analytic coefficients of a model with that row's values."""
+    import pandas as pd
+    from mxlpy import mc
+
+    n1, n2, norm = case["n1"], case["n2"], case["normalized"]
+    c, k1_0, k2 = 2.0, 1.0, 0.5
+    ia = case["table"] == "ia"
+    m = build("chain", n1, n2, [c, k1_0, k2], ia=ia)
+    cols = {"par": ["k1"], "init": ["x"], "both": ["x", "k1"], "ia": ["k1"]}[case["table"]]
+    df = pd.DataFrame({col: MC_ROWS[col] for col in cols}, index=MC_LABELS[case["labels"]])
+    supplied = {"y": 1.25, "x": 0.75} if case["state"] == "supplied" else None
+    txt = f"{case}"
+    before = snapshot(m)
+    rt = case["routine"]
+    try:
+        kw = {"mc_to_scan": df, "normalized": norm, "max_workers": case["workers"]}
+        if rt == "mc.variable_elasticities":
+            got = mc.variable_elasticities(m, variables=supplied, **kw)
+        elif rt == "mc.parameter_elasticities":
+            got = mc.parameter_elasticities(m, to_scan=["c", "k1", "k2"], variables=supplied, **kw)
+        else:
+            res = mc.response_coefficients(m, to_scan=["c", "k1", "k2"], variables=supplied, disable_tqdm=True, **kw)
+    except Exception as exc:  # noqa: BLE001
+        return outcome(False, "raised", symptom=f"raised:{type(exc).__name__}", detail=f"{type(exc).__name__}: {exc} | {txt}")
+    for pos, label in enumerate(df.index):
+        k1 = float(df["k1"].iloc[pos]) if "k1" in df else k1_0
+        x0 = 2.0 * k1 if ia else (float(df["x"].iloc[pos]) if "x" in df else 1.0)
+        st = dict(supplied) if supplied is not None else {"x": x0, "y": 1.0}
+        x, y = st["x"], st["y"]
+        rates = {"v0": c, "v1": k1 * x**n1, "v2": k2 * y**n2}
+        try:
+            if rt == "mc.variable_elasticities":
+                exp = {"v1": {"x": n1 * rates["v1"] / x}, "v2": {"y": n2 * rates["v2"] / y}}
+                for r in rates:
+                    for v in ("x", "y"):
+                        e = exp.get(r, {}).get(v, 0.0)
+                        if norm:
+                            e = e * st[v] / rates[r]
+                        g = float(got.loc[(label, r), v])
+                        if not _close(g, e, 1e-6):
+                            return outcome(False, "wrong-elasticity", symptom="wrong-variable-elasticity:mc", detail=f"row {label!r}: d{r}/d{v} = {g} expected {e} | {txt}")
+            elif rt == "mc.parameter_elasticities":
+                pv = {"c": c, "k1": k1, "k2": k2}
+                exp = {"v0": {"c": 1.0}, "v1": {"k1": x**n1}, "v2": {"k2": y**n2}}
+                for r in rates:
+                    for p_ in pv:
+                        e = exp.get(r, {}).get(p_, 0.0)
+                        if norm:
+                            e = e * pv[p_] / rates[r]
+                        g = float(got.loc[(label, r), p_])
+                        if not _close(g, e, 1e-6):
+                            return outcome(False, "wrong-elasticity", symptom="wrong-parameter-elasticity:mc", detail=f"row {label!r}: d{r}/d{p_} = {g} expected {e} | {txt}")
+            else:
+                xs = (c / k1) ** (1 / n1)
+                ys = (c / k2) ** (1 / n2)
+                dx = {"c": xs / (n1 * c), "k1": -xs / (n1 * k1), "k2": 0.0}
+                dy = {"c": ys / (n2 * c), "k1": 0.0, "k2": -ys / (n2 * k2)}
+                pv = {"c": c, "k1": k1, "k2": k2}
+                for table, exp_t, what in ((res.variables, {"x": (xs, dx), "y": (ys, dy)}, "concentration"),
+                                           (res.fluxes, {r: (c, {"c": 1.0, "k1": 0.0, "k2": 0.0}) for r in ("v0", "v1", "v2")}, "flux")):
+                    for name, (val, d) in exp_t.items():
+                        for p_ in pv:
+                            e = d[p_] * (pv[p_] / val if norm else 1.0)
+                            g = float(table.loc[(label, name), p_])
+                            if not _close(g, e, 2e-2):
+                                return outcome(False, "wrong-response", symptom=f"wrong-{what}-response-coefficient:mc", detail=f"row {label!r}: d{name}/d{p_} = {g} expected {e} | {txt}")
+        except KeyError as exc:
+            return outcome(False, "misaligned", symptom="row-label-missing:mc", detail=f"row {label!r} not in the result ({exc}) | {txt}")
+    after = snapshot(m)
+    if after != before:
+        diff = [(i, a, b) for i, (a, b) in enumerate(zip(before, after, strict=True)) if a != b]
+        what = {0: "parameter values", 1: "initial conditions", 2: "declared initial values"}[diff[0][0]]
+        return outcome(False, "model-changed", symptom=f"model-changed:{what.replace(' ', '-')}:mc", detail=f"{what} before {diff[0][1]} after {diff[0][2]} | {txt}")
+    return outcome(True, "rows-equal-and-untouched")
 
 
 def _close(a, b, tol):
@@ -112,6 +205,8 @@ def check(case):
     from mxlpy import mca
 
     warnings.simplefilter("ignore")
+    if case["routine"].startswith("mc."):
+        return check_mc(case)
     m = build(case["net"], case["n1"], case["n2"], case["pars"], ia=bool(case.get("ia")))
     c, k1, k2 = case["pars"]
     n1, n2 = case["n1"], case["n2"]
